@@ -15,7 +15,7 @@ cp "$dir/$demo" "$wt/$dest"
 pkg=./$(dirname "$dest")
 (cd "$wt" && gotest -mod=mod -vet=off -count=1 -run 'Demo' "$pkg" >/tmp/conf.$$ 2>&1) && echo "1 demo passes on clean tree: yes" || { echo "1 demo passes on clean tree: NO"; tail -5 /tmp/conf.$$; ok=0; }
 rm -f "$wt/$dest"
-(cd "$wt" && git apply "$dir/patch.diff") && echo "2a patch applies: yes" || { echo "2a patch applies: NO"; ok=0; }
+(cd "$wt" && { git apply "$dir/patch.diff" 2>/dev/null || git apply -3 "$dir/patch.diff"; } && git reset -q) && echo "2a patch applies: yes (3-way if needed)" || { echo "2a patch applies: NO"; ok=0; }
 (cd "$wt" && go build . ./pkg/... ./internal/... >/tmp/conf.$$ 2>&1) && echo "2b builds: yes" || { echo "2b builds: NO"; tail -5 /tmp/conf.$$; ok=0; }
 (cd "$wt" && gotest -mod=mod -vet=off -count=1 "$@" >/tmp/conf.$$ 2>&1) && echo "3 existing tests pass with the change: yes ($*)" || { echo "3 existing tests pass with the change: NO ($*)"; tail -8 /tmp/conf.$$; ok=0; }
 cp "$dir/$demo" "$wt/$dest"
